@@ -1,6 +1,7 @@
 package pppoe
 
 import (
+	"bytes"
 	"context"
 	"crypto/rand"
 	"encoding/binary"
@@ -452,6 +453,15 @@ func (s *Server) handlePADT(clientMAC net.HardwareAddr, sessionID uint16) {
 		return
 	}
 
+	// Only the session's owner may terminate it
+	if !bytes.Equal(clientMAC, session.ClientMAC) {
+		s.logger.Warn("Ignoring PADT from foreign MAC",
+			zap.Uint16("session_id", sessionID),
+			zap.String("from", clientMAC.String()),
+		)
+		return
+	}
+
 	s.logger.Info("PPPoE session terminated by client",
 		zap.Uint16("session_id", sessionID),
 		zap.String("client_mac", clientMAC.String()),
@@ -484,6 +494,11 @@ func (s *Server) handleSession(clientMAC net.HardwareAddr, data []byte) {
 
 	session := s.sessions.GetSession(hdr.SessionID)
 	if session == nil {
+		return
+	}
+
+	// Frames that do not come from the session's owner must not touch the session
+	if !bytes.Equal(clientMAC, session.ClientMAC) {
 		return
 	}
 
